@@ -1,6 +1,7 @@
 package otto
 
 import (
+	"fmt"
 	"math"
 	"time"
 )
@@ -65,7 +66,15 @@ func builtinDateToUTCString(call FunctionCall) Value {
 func builtinDateToISOString(call FunctionCall) Value {
 	date := dateObjectOf(call.runtime, call.thisObject())
 	if date.isNaN {
-		return stringValue("Invalid Date")
+		panic(call.runtime.panicRangeError("Invalid time value"))
+	}
+	if year := date.Time().Year(); year < 0 || year > 9999 {
+		// Expanded years: 15.9.1.15.1.
+		sign := "+"
+		if year < 0 {
+			sign, year = "-", -year
+		}
+		return stringValue(fmt.Sprintf("%s%06d", sign, year) + date.Time().Format("-01-02T15:04:05.000Z"))
 	}
 	return stringValue(date.Time().Format("2006-01-02T15:04:05.000Z"))
 }
